@@ -315,8 +315,13 @@ class NetAddr():
             elif isinstance(val, (bytes, bytearray, memoryview)):
                 res += 4 + len(val) + (-len(val) & 3)  # Size bytes, data, pad.
             elif isinstance(val, list):
-                # Arrays are messages converted to blobs.
-                res += self._calc_msg_dgram_size(val) + 4  # Blob size bytes.
+                # Lists are messages or bundles converted to blobs.
+                if not val:
+                    res += 4  # Empty list is sent as int 0.
+                elif isinstance(val[0], str):
+                    res += self._calc_msg_dgram_size(val) + 4  # Blob size bytes.
+                else:
+                    res += self._calc_bndl_dgram_size(val[1:]) + 4
             else:
                 res += 4  # Everything else (sent by sc3, no doubles).
         return res
